@@ -212,7 +212,13 @@ fn judge_case(ctx: &mut Ctx, bin: &str, dir: &str, c: &Case, mode: Mode, variant
             result_file = Some(f);
         }
         2 if !input_via_stdin => {
-            args.push(format!("--output={in_path}"));
+            // the input file itself, now and then named by another spelling of the same path
+            let alias = match (variant / 1152) % 3 {
+                1 => in_path.replacen("/in-", "/./in-", 1),
+                2 => in_path.replacen("/in-", "//in-", 1),
+                _ => in_path.clone(),
+            };
+            args.push(format!("--output={alias}"));
             result_file = Some(in_path.clone());
         }
         _ => {}
@@ -337,6 +343,12 @@ fn gen_case(seed: u64, i: u64) -> Case {
     } else {
         rd
     };
+    let rd = if r.chance(1, 20) {
+        // a long last line without line break (partial writes to stdout must not lose it)
+        crate::doc::Rendered { text: format!("{}\n{}", rd.text, "tail ".repeat(*r.pick(&[205usize, 300, 3000]))), elems: vec![] }
+    } else {
+        rd
+    };
     let text = match r.below(12) {
         0 => rd.text.replace('\n', "\r\n"),
         1 => {
@@ -379,7 +391,7 @@ pub fn run(ctx: &mut Ctx) {
         // one full equivalence class sample: base variant + 2 random other variants
         judge_case(ctx, &bin, &dir, &c, mode, 0, "equivalence", false);
         for _ in 0..2 {
-            judge_case(ctx, &bin, &dir, &c, mode, r.next() % (144 * 8), "equivalence", false);
+            judge_case(ctx, &bin, &dir, &c, mode, r.next() % (144 * 8 * 3), "equivalence", false);
         }
     }
     // ---- defaults: documents written with names harvested from the option defaults;
